@@ -189,7 +189,17 @@ def run(ctx):
             ctx.ev()
             ctx.count("writeuleb128")
             try:
-                enc = bytes(dex.writeuleb128(cm, v))
+                r_ = dex.writeuleb128(cm, v)
+                enc = bytes(r_)
+                if isinstance(r_, (bytearray, list)):
+                    # the usual way to build a stream: append to / insert into the buffer that was handed out; encoding the value again is not affected
+                    r_ += b"\x55"
+                    r_.insert(0, 0x33)
+                    ctx.count("writer_results_modified_in_place_then_value_encoded_again")
+                    again = bytes(dex.writeuleb128(cm, v))
+                    if again != enc:
+                        ctx.violation("writeuleb128-result-aliased", "encoding a value again after the caller appended to the first result gives other bytes",
+                                      {"value": v, "first": enc, "again": again})
                 back = dex.readuleb128(cm, io.BytesIO(enc + b"\xAA"))
             except Exception as e:
                 ctx.violation("writeuleb128-raises", "writeuleb128/readuleb128 raise on a 32-bit value", {"value": v, "exc": exc_str(e)})
@@ -208,7 +218,17 @@ def run(ctx):
             ctx.ev()
             ctx.count("writesleb128")
             try:
-                enc = bytes(dex.writesleb128(cm, v))
+                r_ = dex.writesleb128(cm, v)
+                enc = bytes(r_)
+                if isinstance(r_, (bytearray, list)):
+                    # the usual way to build a stream: append to / insert into the buffer that was handed out; encoding the value again is not affected
+                    r_ += b"\x55"
+                    r_.insert(0, 0x33)
+                    ctx.count("writer_results_modified_in_place_then_value_encoded_again")
+                    again = bytes(dex.writesleb128(cm, v))
+                    if again != enc:
+                        ctx.violation("writesleb128-result-aliased", "encoding a value again after the caller appended to the first result gives other bytes",
+                                      {"value": v, "first": enc, "again": again})
                 back = dex.readsleb128(cm, io.BytesIO(enc + b"\xAA"))
             except Exception as e:
                 ctx.violation("writesleb128-raises", "writesleb128/readsleb128 raise on a 32-bit value", {"value": v, "exc": exc_str(e)})
